@@ -30,6 +30,15 @@ func (a *AdvRefs) Encode(w io.Writer) error {
 	// Find HEAD or use first ref
 	firstName, firstHash := a.firstRef()
 
+	// Build peeled map
+	peeled := make(map[string]plumbing.Hash)
+	for _, ref := range a.References {
+		name := ref.Name().String()
+		if base, ok := strings.CutSuffix(name, "^{}"); ok {
+			peeled[base] = ref.Hash()
+		}
+	}
+
 	// Write first line: hash SP refname NUL capabilities
 	caps := a.Capabilities.String()
 	if firstName == "" {
@@ -45,14 +54,11 @@ func (a *AdvRefs) Encode(w io.Writer) error {
 		if _, err := pktline.WriteString(w, firstLine); err != nil {
 			return err
 		}
-	}
-
-	// Build peeled map
-	peeled := make(map[string]plumbing.Hash)
-	for _, ref := range a.References {
-		name := ref.Name().String()
-		if base, ok := strings.CutSuffix(name, "^{}"); ok {
-			peeled[base] = ref.Hash()
+		// The peeled version of the first ref follows it immediately.
+		if hash, ok := peeled[firstName]; ok {
+			if _, err := pktline.Writef(w, "%s %s^{}\n", hash.String(), firstName); err != nil {
+				return err
+			}
 		}
 	}
 
